@@ -23,7 +23,7 @@ def run(ctx: CheckContext):
     ctx.floor("WRAP", 2)
     ctx.floor("PAIR-2", 4)
     ctx.floor("PAIR-SRC", 2)
-    ctx.floor("ACC", 8)
+    ctx.floor("ACC", 7)
     ctx.assumptions += [
         "decides necessary bookkeeping conditions of the first-law balance (no wrapped cold window, equal subtraction in generation/use matching, both site targets read "
         "from one cascade, every zone total fed once); the balance identity itself is numeric and NOT decided",
